@@ -7,9 +7,11 @@
 mod p_adsr;
 mod p_clamp;
 mod p_clamp_ext;
+mod p_glide;
 mod p_lfo;
 mod p_midi;
 mod p_quant;
+mod p_ribbon;
 mod runner;
 mod strat;
 
@@ -68,6 +70,10 @@ fn dispatch(id: &str, quick: bool, seed: u64) -> Option<(Outcome, u64)> {
         "C05" => p_midi::c05(quick, seed),
         "C06" => p_midi::c06(quick, seed),
         "C18" => p_midi::c18(quick, seed),
+        "C13" => p_glide::c13(quick, seed),
+        "C15" => p_ribbon::c15(quick, seed),
+        "C16" => p_ribbon::c16(quick, seed),
+        "C14" => p_glide::c14(quick, seed),
         "C07" => p_quant::c07(quick, seed),
         "C08" => p_quant::c08(quick, seed),
         "C09" => p_quant::c09(quick, seed),
@@ -122,6 +128,8 @@ fn replay_engine(property: &str, engine: &str, case: &Value) -> Result<(), Failu
         e if e.starts_with("c20_") => p_clamp::replay(e, case),
         e if e.starts_with("quant_") => p_quant::replay(property, e, case),
         e if e.starts_with("midi_") => p_midi::replay(property, e, case),
+        e if e.starts_with("glide_") => p_glide::replay(e, case),
+        e if e.starts_with("ribbon_") => p_ribbon::replay(property, e, case),
         _ => Err(Failure::new("replay_unknown_engine", 0, format!("no replay handler for engine {}", engine))),
     }
 }
